@@ -99,4 +99,6 @@ def status(vc):
     """proved | refuted | undecided   (cover VCs: 'sat' expected)."""
     if vc.expect == 'sat':
         return 'proved' if vc.result == 'sat' else ('refuted' if vc.result == 'unsat' else 'undecided')
+    if vc.kind == 'frame' and z3.is_false(vc.goal) and vc.result != 'unsat':
+        return 'refuted'      # a write outside the frame on a path that could not be shown infeasible (a syntactic frame violation)
     return 'proved' if vc.result == 'unsat' else ('refuted' if vc.result == 'sat' else 'undecided')
